@@ -372,6 +372,10 @@ def dispatch (t : τ) (c : Ctl) (now : Nat) (hdr : Option Header) (parsed : Opti
         let n := if halfOpen sas > c.threshold then { n with cookie := true } else n
         let i := sas.length - 1
         let (t, o) := processMessage H t { core := n, succ := none } now parsed
+        -- a responder IKE_SA whose request was not accepted (still INITIAL) is forgotten again
+        if o.sa.core.st = stINITIAL then
+          (t, { ctl := c, sent := (o.out.map fun m => (myAddr, peerAddr, m)).toList, nl := o.nl, escaped := o.escaped, ran := o.ran })
+        else
         let (sas, ops) := afterMessage sas i o.sa
         (t, { ctl := { c with sas := sas }, sent := (o.out.map fun m => (myAddr, peerAddr, m)).toList,
               nl := o.nl ++ ops, escaped := o.escaped, ran := o.ran })
@@ -389,7 +393,7 @@ def dispatch (t : τ) (c : Ctl) (now : Nat) (hdr : Option Header) (parsed : Opti
 
 /-- controller `process_acquire`: an IKE_SA with that peer address, else a new initiator -/
 def ctlAcquire (t : τ) (c : Ctl) (now : Nat) (myAddr peerAddr : Bytes) (tsi tsr : TS) (index : Nat) : τ × IterOut :=
-  match c.sas.findIdx? fun s => s.core.peerAddr = peerAddr with
+  match c.sas.findIdx? fun s => s.core.peerAddr = peerAddr ∧ (s.core.isInit ∨ s.core.st ≥ stESTABLISHED) with
   | some i =>
     match c.sas[i]? with
     | none => (t, { ctl := c })
@@ -454,8 +458,9 @@ structure LoopEv where
   control : Bool := false
   sendFails : Bool := false                                                -- the first sendto of this round raises OSError
 
-/-- one iteration of `main_loop`; `escaped` means an exception reached the `while True` body's
-    `except` clauses uncaught (the daemon stops) -/
+/-- one iteration of `main_loop`; `escaped` means an exception reached the `while True` body's `except`
+    clauses (since the repair of the loop they contain every `Exception`: the rest of the iteration is
+    abandoned and the daemon goes on with the state reached so far) -/
 def loopIter (t : τ) (c : Ctl) (now : Nat) (ev : LoopEv) : τ × IterOut :=
   -- 1. datagram
   let (t, o1) : τ × IterOut := match ev.datagram with
